@@ -1,5 +1,313 @@
-// timer mode (virtual time, C17) - filled in later
+// timer mode (C17): the real event loop (`MainState::process`, real ping waker / pong timeout
+// tasks) on tokio's PAUSED clock.  Virtual time only moves through `advance <ms>` operations
+// (in steps of STEP_MS); nothing here awaits I/O or timers in a way that parks the runtime, so
+// the clock never auto-advances.  Every line a client receives is tagged with the virtual
+// millisecond at which it was observed.
+use crate::orch::{build_config, LAST_PANIC};
+use crate::*;
+use futures::FutureExt;
+use std::collections::BTreeMap;
 use std::io::Write;
-pub(crate) fn run_file<W: Write>(_input: &str, out: &mut W) {
-    writeln!(out, "timer mode not implemented").unwrap();
+use std::net::IpAddr;
+use std::panic::AssertUnwindSafe;
+use std::time::Duration;
+use tokio::net::{TcpListener, TcpStream};
+use tokio_util::codec::Framed;
+
+const STEP_MS: u64 = 100;
+
+struct Slot {
+    cs: Option<ConnState>,
+    client: TcpStream,
+    buf: Vec<u8>,
+}
+
+async fn spin(n: usize) {
+    for _ in 0..n {
+        tokio::task::yield_now().await;
+    }
+}
+
+struct T<'a, W: Write> {
+    ms: MainState,
+    slots: BTreeMap<usize, Slot>,
+    out: &'a mut W,
+    start: tokio::time::Instant,
+    fence_no: usize,
+    sync_no: usize,
+    lines: Vec<String>,
+}
+
+impl<'a, W: Write> T<'a, W> {
+    fn now_ms(&self) -> u128 {
+        self.start.elapsed().as_millis()
+    }
+
+    // poll every live connection until nothing is ready; tear down the ones that quit.
+    async fn settle(&mut self) {
+        for _round in 0..50 {
+            let mut progress = false;
+            let ids: Vec<usize> = self.slots.keys().copied().collect();
+            for c in ids {
+                for _ in 0..1000 {
+                    let slot = self.slots.get_mut(&c).unwrap();
+                    if slot.cs.is_none() {
+                        break;
+                    }
+                    if slot.cs.as_ref().unwrap().is_quit() {
+                        let cs = slot.cs.take().unwrap();
+                        self.ms.remove_user(&cs).await;
+                        drop(cs);
+                        let t = self.now_ms();
+                        self.lines.push(format!("ev closed {} @{}", c, t));
+                        progress = true;
+                        break;
+                    }
+                    let cs = slot.cs.as_mut().unwrap();
+                    let r = AssertUnwindSafe(self.ms.process(cs)).catch_unwind().now_or_never();
+                    match r {
+                        None => break,
+                        Some(Ok(_)) => progress = true,
+                        Some(Err(_)) => {
+                            let msg = LAST_PANIC.lock().unwrap().clone();
+                            self.lines.push(format!("ev panic {} {}", c, esc(&msg)));
+                            slot.cs = None;
+                            progress = true;
+                            break;
+                        }
+                    }
+                }
+            }
+            if !progress {
+                break;
+            }
+            spin(3).await;
+        }
+    }
+
+    // read everything the clients have received so far (delimited by a fence written straight
+    // to each live connection's socket).
+    async fn collect(&mut self) {
+        self.fence_no += 1;
+        let fence = format!("FENCE {}", self.fence_no);
+        let t = self.now_ms();
+        let ids: Vec<usize> = self.slots.keys().copied().collect();
+        for c in ids {
+            let slot = self.slots.get_mut(&c).unwrap();
+            let live = slot.cs.is_some();
+            if live && !slot.cs.as_mut().unwrap().verif_fence(fence.clone()).await {
+                continue;
+            }
+            let mut done = false;
+            let mut tries = 0;
+            let mut tmp = [0u8; 65536];
+            while !done {
+                while let Some(p) = slot.buf.iter().position(|b| *b == b'\n') {
+                    let mut l: Vec<u8> = slot.buf.drain(..=p).collect();
+                    l.pop();
+                    if l.last() == Some(&b'\r') {
+                        l.pop();
+                    }
+                    let s = String::from_utf8_lossy(&l).to_string();
+                    if live && s == fence {
+                        done = true;
+                        break;
+                    }
+                    if s.contains(" 421 ") && s.contains(" SYNC") {
+                        continue; // barrier reply
+                    }
+                    self.lines.push(format!("out {} @{} {}", c, t, esc(&s)));
+                }
+                if done {
+                    break;
+                }
+                match slot.client.try_read(&mut tmp) {
+                    Ok(0) => done = true,
+                    Ok(n) => slot.buf.extend_from_slice(&tmp[..n]),
+                    Err(ref e) if e.kind() == std::io::ErrorKind::WouldBlock => {
+                        if !live {
+                            // closed connection: give the kernel a moment, then stop
+                            tries += 1;
+                            if tries > 50 {
+                                done = true;
+                            }
+                        } else {
+                            tries += 1;
+                            if tries > 20000 {
+                                self.lines.push(format!("ev readtimeout {}", c));
+                                done = true;
+                            }
+                        }
+                        std::thread::sleep(Duration::from_micros(50));
+                        spin(2).await;
+                    }
+                    Err(_) => done = true,
+                }
+            }
+        }
+    }
+
+    async fn send_line_and_sync(&mut self, c: usize, text: &str) {
+        self.sync_no += 1;
+        let token = format!("SYNC{}", self.sync_no);
+        let data = format!("{}\r\n{}\r\n", text, token);
+        {
+            let slot = self.slots.get_mut(&c).unwrap();
+            let mut off = 0;
+            let bytes = data.as_bytes();
+            while off < bytes.len() {
+                match slot.client.try_write(&bytes[off..]) {
+                    Ok(n) => off += n,
+                    Err(_) => {
+                        std::thread::sleep(Duration::from_micros(50));
+                        spin(2).await;
+                    }
+                }
+            }
+        }
+        // poll until the barrier's 421 reply has been produced (per-connection FIFO)
+        let needle = format!(" {} ", token);
+        for _ in 0..20000 {
+            self.settle().await;
+            let slot = self.slots.get_mut(&c).unwrap();
+            if slot.cs.is_none() {
+                break;
+            }
+            let mut tmp = [0u8; 65536];
+            match slot.client.try_read(&mut tmp) {
+                Ok(n) if n > 0 => slot.buf.extend_from_slice(&tmp[..n]),
+                _ => {}
+            }
+            if String::from_utf8_lossy(&slot.buf).contains(&needle) {
+                break;
+            }
+            std::thread::sleep(Duration::from_micros(50));
+            spin(2).await;
+        }
+    }
+}
+
+async fn run_seq<W: Write>(cfg: MainConfig, ops: &[&str], out: &mut W) {
+    let listener = TcpListener::bind("127.0.0.1:0").await.unwrap();
+    let mut t = T {
+        ms: MainState::new_from_config(cfg),
+        slots: BTreeMap::new(),
+        out,
+        start: tokio::time::Instant::now(),
+        fence_no: 0,
+        sync_no: 0,
+        lines: vec![],
+    };
+    for (k, op) in ops.iter().enumerate() {
+        let toks: Vec<&str> = op.split(' ').collect();
+        t.lines.clear();
+        match toks[0] {
+            "connect" => {
+                let c: usize = toks[1].parse().unwrap();
+                let ip: IpAddr = toks[2].parse().unwrap();
+                let addr = listener.local_addr().unwrap();
+                // non-parking connect/accept
+                let mut cf = Box::pin(TcpStream::connect(addr));
+                let mut af = Box::pin(listener.accept());
+                let (mut client, mut server) = (None, None);
+                for _ in 0..100000 {
+                    if client.is_none() {
+                        if let Some(r) = (&mut cf).now_or_never() {
+                            client = Some(r.unwrap());
+                        }
+                    }
+                    if server.is_none() {
+                        if let Some(r) = (&mut af).now_or_never() {
+                            server = Some(r.unwrap().0);
+                        }
+                    }
+                    if client.is_some() && server.is_some() {
+                        break;
+                    }
+                    std::thread::sleep(Duration::from_micros(50));
+                    spin(2).await;
+                }
+                let (client, server) = (client.unwrap(), server.unwrap());
+                server.set_nodelay(true).ok();
+                client.set_nodelay(true).ok();
+                let framed = Framed::new(
+                    DualTcpStream::PlainStream(server),
+                    IRCLinesCodec::new_with_max_length(2000),
+                );
+                if let Some(cs) = t.ms.register_conn_state(ip, framed) {
+                    t.slots.insert(
+                        c,
+                        Slot {
+                            cs: Some(cs),
+                            client,
+                            buf: vec![],
+                        },
+                    );
+                }
+            }
+            "line" => {
+                let c: usize = toks[1].parse().unwrap();
+                if t.slots.get(&c).map_or(false, |s| s.cs.is_some()) {
+                    let text = unesc(toks[2]);
+                    t.send_line_and_sync(c, &text).await;
+                } else {
+                    t.lines.push(format!("ev dead {}", c));
+                }
+                t.settle().await;
+                t.collect().await;
+            }
+            "advance" => {
+                let ms: u64 = toks[1].parse().unwrap();
+                let mut left = ms;
+                while left > 0 {
+                    let d = left.min(STEP_MS);
+                    tokio::time::advance(Duration::from_millis(d)).await;
+                    left -= d;
+                    spin(8).await;
+                    t.settle().await;
+                    t.collect().await;
+                }
+            }
+            other => panic!("unknown timer op {}", other),
+        }
+        writeln!(t.out, "op {} {}", k + 1, op).unwrap();
+        for l in &t.lines {
+            writeln!(t.out, "{}", l).unwrap();
+        }
+        writeln!(t.out, "endop").unwrap();
+    }
+}
+
+pub(crate) fn run_file<W: Write>(input: &str, out: &mut W) {
+    let mut cfg_lines: Vec<Vec<String>> = vec![];
+    let mut ops: Vec<&str> = vec![];
+    let mut in_seq = false;
+    for line in input.lines() {
+        if line.is_empty() || line.starts_with('#') {
+            continue;
+        }
+        if line.starts_with("seq ") {
+            cfg_lines.clear();
+            ops.clear();
+            in_seq = false;
+            writeln!(out, "{}", line).unwrap();
+        } else if line.starts_with("cfg ") {
+            cfg_lines.push(line.split(' ').map(|s| s.to_string()).collect());
+        } else if line == "begin" {
+            in_seq = true;
+        } else if line == "end" {
+            let cfg = build_config(&cfg_lines);
+            let rt = tokio::runtime::Builder::new_current_thread()
+                .enable_all()
+                .start_paused(true)
+                .build()
+                .unwrap();
+            rt.block_on(run_seq(cfg, &ops, out));
+            rt.shutdown_background();
+            writeln!(out, "endseq").unwrap();
+            in_seq = false;
+        } else if in_seq {
+            ops.push(line);
+        }
+    }
 }
